@@ -518,6 +518,8 @@ def check(pid, tier, seed):
             er = extra(tier, seed, key, sys.modules[__name__])
             viols += [v for v in er.get("viols", []) if pid in v["prop"].split("+")]
             cov.update({k: v for k, v in er.get("coverage", {}).items() if k not in ("states", "transitions")})
+            if "samples" in er and er["samples"] and not spec.get("conc", True):
+                cov["samples"] = er["samples"][:3]
             states += er.get("coverage", {}).get("states", 0)
             trans += er.get("coverage", {}).get("transitions", 0)
             traces += er.get("traces", 0)
